@@ -212,8 +212,8 @@ func c05Run(kind, id string, steps []c05Step) (res c05Result) {
 				st.Close()
 			}
 		}
-		w.ts.CloseClientConnections()
-		w.ts.Close()
+		closeClientConns(w.ts)
+		closeTS(w.ts)
 	}()
 	ctx := context.Background()
 	realID := func(name string) string {
